@@ -70,12 +70,22 @@ theorem calcNext_good (a : Alarm) (cal : Calendar) (t nl : Nat) (hs : a.sod < D)
 
 theorem activeTimer_of_none (a : Alarm) (e : Env)
     (hc : calcNext a e.cal (addOff (a.base e) a.offset) = none) : activeTimer a e = (a, false) := by
-  unfold activeTimer; simp only [hc]
+  unfold activeTimer; simp only [hc]; split <;> rfl
 
-theorem activeTimer_of_some (a : Alarm) (e : Env) (nl : Nat)
+/-- gettimeofday failed: nothing is armed, nothing changes -/
+theorem activeTimer_of_clock_failure (a : Alarm) (e : Env) (hg : e.gtod = false) : activeTimer a e = (a, false) := by
+  unfold activeTimer; simp [hg]
+
+theorem activeTimer_of_some (a : Alarm) (e : Env) (nl : Nat) (hg : e.gtod = true)
     (hc : calcNext a e.cal (addOff (a.base e) a.offset) = some nl) :
     activeTimer a e = (armed a e (subOff (w32 nl) a.offset) (delayMs (w32 (subOff (w32 nl) a.offset + U32 - e.sec)) e.ms), true) := by
-  unfold activeTimer; simp only [hc]
+  unfold activeTimer; simp [hg, hc]
+
+/-- a successful arm read the clock -/
+theorem activeTimer_ok_clock (a : Alarm) (e : Env) (hok : (activeTimer a e).2 = true) : e.gtod = true := by
+  cases hg : e.gtod with
+  | true => rfl
+  | false => rw [activeTimer_of_clock_failure a e hg] at hok; cases hok
 
 /-- the arithmetic of activeTimer without wrap (`start` = the base of the search, not before `cur`) -/
 theorem arm_arith (cur start : Nat) (off : Int) (nl ms : Nat) (hcs : cur ≤ start) (hr : InRange start off)
@@ -133,7 +143,7 @@ theorem activeTimer_spec (a : Alarm) (e : Env) (hs : a.sod < D)
     have hw : w32 nl = nl := w32_of_lt (by simp only [D_eq] at hrange; omega)
     have hg := calcNext_good a e.cal _ nl hs hrange hc
     have har := arm_arith e.sec (a.base e) a.offset nl e.ms (base_ge a e).1 hr hg.1 (by simp only [D_eq]; exact hfar) (env_ms_lt e)
-    have heq := activeTimer_of_some a e nl hc
+    have heq := activeTimer_of_some a e nl (activeTimer_ok_clock a e hok) hc
     rw [hw] at heq
     exact ⟨nl, subOff nl a.offset, delayMs (w32 (subOff nl a.offset + U32 - e.sec)) e.ms, rfl,
       heq, har.1, har.2.1, har.2.2, hg⟩
@@ -143,17 +153,23 @@ theorem activeTimer_fields (a : Alarm) (e : Env) :
     (activeTimer a e).1.cls = a.cls ∧ (activeTimer a e).1.nFired = a.nFired ∧
     (activeTimer a e).1.nEnabled = a.nEnabled ∧ (activeTimer a e).1.hasCb = a.hasCb ∧
     (activeTimer a e).1.subs = a.subs ∧ (activeTimer a e).1.sod = a.sod := by
+  cases hg : e.gtod with
+  | false => rw [activeTimer_of_clock_failure a e hg]; simp
+  | true =>
   cases hc : calcNext a e.cal (addOff (a.base e) a.offset) with
   | none => rw [activeTimer_of_none a e hc]; simp
-  | some nl => rw [activeTimer_of_some a e nl hc]; simp [armed]
+  | some nl => rw [activeTimer_of_some a e nl hg hc]; simp [armed]
 
 /-- either armed (running, timer set) or untouched -/
 theorem activeTimer_cases (a : Alarm) (e : Env) :
     ((activeTimer a e).2 = true ∧ (activeTimer a e).1.st = .running ∧ (activeTimer a e).1.timer.isSome = true) ∨
     ((activeTimer a e).2 = false ∧ (activeTimer a e).1 = a) := by
+  cases hg : e.gtod with
+  | false => rw [activeTimer_of_clock_failure a e hg]; simp
+  | true =>
   cases hc : calcNext a e.cal (addOff (a.base e) a.offset) with
   | none => rw [activeTimer_of_none a e hc]; simp
-  | some nl => rw [activeTimer_of_some a e nl hc]; simp [armed]
+  | some nl => rw [activeTimer_of_some a e nl hg hc]; simp [armed]
 
 theorem activeTimer_inv (a : Alarm) (e : Env) (h : Inv a) : Inv (activeTimer a e).1 := by
   rcases activeTimer_cases a e with ⟨_, h1, h2⟩ | ⟨_, h1⟩
@@ -162,6 +178,21 @@ theorem activeTimer_inv (a : Alarm) (e : Env) (h : Inv a) : Inv (activeTimer a e
 
 theorem inv_of_idle {a : Alarm} (h1 : a.st ≠ .running) (h2 : a.timer = none) : Inv a := by
   unfold Inv; simp [h1, h2]
+
+theorem unsubscribe_fields (a : Alarm) :
+    (unsubscribe a).st = a.st ∧ (unsubscribe a).timer = a.timer ∧ (unsubscribe a).target = a.target ∧
+    (unsubscribe a).sod = a.sod ∧ (unsubscribe a).cls = a.cls ∧ (unsubscribe a).nFired = a.nFired ∧
+    (unsubscribe a).nEnabled = a.nEnabled ∧ (unsubscribe a).wrapped = a.wrapped ∧ (unsubscribe a).lastServed = a.lastServed ∧
+    (unsubscribe a).hasCb = a.hasCb := by
+  unfold unsubscribe; split <;> simp
+
+/-- the re-arm of refresh() / onTimeExpired(): the arm when it succeeds, otherwise the idle alarm minus its subscription -/
+theorem rearm_cases (a : Alarm) (e : Env) :
+    ((activeTimer a e).2 = true ∧ rearm a e = (activeTimer a e).1) ∨
+    ((activeTimer a e).2 = false ∧ rearm a e = unsubscribe a) := by
+  rcases activeTimer_cases a e with ⟨h, _, _⟩ | ⟨h, heq⟩
+  · left; exact ⟨h, by unfold rearm; simp [h]⟩
+  · right; exact ⟨h, by unfold rearm; simp [h, heq]⟩
 
 theorem Inv.idle {a : Alarm} (h : Inv a) (hr : a.st ≠ .running) : a.timer = none := by
   cases ht : a.timer with
@@ -202,6 +233,14 @@ theorem subscribe_inv (a : Alarm) (h : Inv a) : Inv (subscribe a) := by
   · exact inv_congr rfl rfl h
   · exact h
 
+theorem unsubscribe_inv (a : Alarm) (h : Inv a) : Inv (unsubscribe a) :=
+  inv_congr (unsubscribe_fields a).1 (unsubscribe_fields a).2.1 h
+
+theorem rearm_inv (a : Alarm) (e : Env) (h : Inv a) : Inv (rearm a e) := by
+  rcases rearm_cases a e with ⟨_, heq⟩ | ⟨_, heq⟩
+  · rw [heq]; exact activeTimer_inv a e h
+  · rw [heq]; exact unsubscribe_inv a h
+
 theorem enable_inv (a : Alarm) (e : Env) (h : Inv a) : Inv (enable a e).1 := by
   unfold enable
   split
@@ -209,7 +248,7 @@ theorem enable_inv (a : Alarm) (e : Env) (h : Inv a) : Inv (enable a e).1 := by
     simp only
     split
     · exact inv_congr rfl rfl this
-    · exact this
+    · exact unsubscribe_inv _ this
   · exact h
 
 theorem disable_inv (a : Alarm) (h : Inv a) : Inv (disable a).1 ∧ (disable a).1.st ≠ .running := by
@@ -228,7 +267,7 @@ theorem cleanup_inv (a : Alarm) (h : Inv a) : Inv (cleanup a) ∧ (cleanup a).st
 theorem refresh_inv (a : Alarm) (e : Env) (h : Inv a) : Inv (refresh a e) := by
   unfold refresh
   split
-  · exact activeTimer_inv _ e (inv_of_idle (by simp) (by simp))
+  · exact rearm_inv _ e (inv_of_idle (by simp) (by simp))
   · exact h
 
 theorem refresh_idle (a : Alarm) (e : Env) (h : a.st ≠ .running) : refresh a e = a := by
@@ -254,7 +293,7 @@ theorem expire_inv (a : Alarm) (e : Env) : Inv (expire a e).1 := by
   unfold expire
   split
   · exact inv_of_idle (by simp) (by simp)
-  · exact activeTimer_inv _ e (inv_of_idle (by simp) (by simp))
+  · exact rearm_inv _ e (inv_of_idle (by simp) (by simp))
 
 theorem expire_served (a : Alarm) (e : Env) : (expire a e).2 = (a.target, decide (a.st = .running)) := by
   unfold expire; cases a.cls <;> rfl
